@@ -13,7 +13,7 @@
 //!           free: '-' (all threads run their programs freely; the hook injects yields inside and around the
 //!                 critical sections, derived from <seed>)
 //! observation:
-//!   V:<events>|T:<per thread ';': per call ',': metric handed to the sink (hex | F) '=' result k<n>|e >
+//!   V:<events>|T:<per thread ';': per call ',': metric handed to the sink (hex | F) '=' result k<n>|e '@' start.end.writes >
 //!   |R:<per thread ';': per op K (Ok) | R (Err) | P (panic)>|D:<datagrams hex ';'>|H:<notes>
 //!   events = the hook events in global order: <role><e|w|x>  (enter / underlying write / exit of a critical
 //!            section; role = thread number, m = any other thread)
@@ -52,6 +52,8 @@ struct Ctl {
     free: bool,
     seed: u64,
     n: AtomicU64,
+    clock: AtomicU64,
+    writes: AtomicU64,
 }
 
 fn mix(mut x: u64) -> u64 {
@@ -71,7 +73,13 @@ impl Ctl {
             _ => return,
         };
         let role = ROLE.with(|r| r.get());
-        self.events.lock().unwrap().push((role, code));
+        {
+            let mut ev = self.events.lock().unwrap();
+            ev.push((role, code));
+            if code == b'w' {
+                self.writes.fetch_add(1, Ordering::SeqCst);
+            }
+        }
         if self.free {
             let k = self.n.fetch_add(1, Ordering::Relaxed);
             let r = mix(self.seed ^ k.wrapping_mul(0x9e3779b97f4a7c15));
@@ -109,23 +117,31 @@ impl Ctl {
 }
 
 /// records, on the calling thread, what is handed to the shared sink and what it answers
-struct Tee(Arc<dyn MetricSink + Send + Sync + RefUnwindSafe>);
+/// (each entry also carries three stamps: a global clock at the start and at the end of the call, and the number of
+/// underlying writes made by anyone when the call returned)
+struct Tee(Arc<dyn MetricSink + Send + Sync + RefUnwindSafe>, Arc<Ctl>);
 
 impl MetricSink for Tee {
     fn emit(&self, metric: &str) -> io::Result<usize> {
+        let t0 = self.1.clock.fetch_add(1, Ordering::SeqCst);
         let r = self.0.emit(metric);
+        let w = self.1.writes.load(Ordering::SeqCst);
+        let t1 = self.1.clock.fetch_add(1, Ordering::SeqCst);
         let s = match &r {
-            Ok(n) => format!("{}=k{}", hex(metric.as_bytes()), n),
-            Err(_) => format!("{}=e", hex(metric.as_bytes())),
+            Ok(n) => format!("{}=k{}@{}.{}.{}", hex(metric.as_bytes()), n, t0, t1, w),
+            Err(_) => format!("{}=e@{}.{}.{}", hex(metric.as_bytes()), t0, t1, w),
         };
         TLOG.with(|l| l.borrow_mut().push(s));
         r
     }
     fn flush(&self) -> io::Result<()> {
+        let t0 = self.1.clock.fetch_add(1, Ordering::SeqCst);
         let r = self.0.flush();
+        let w = self.1.writes.load(Ordering::SeqCst);
+        let t1 = self.1.clock.fetch_add(1, Ordering::SeqCst);
         let s = match &r {
-            Ok(()) => "F=k0".to_string(),
-            Err(_) => "F=e".to_string(),
+            Ok(()) => format!("F=k0@{}.{}.{}", t0, t1, w),
+            Err(_) => format!("F=e@{}.{}.{}", t0, t1, w),
         };
         TLOG.with(|l| l.borrow_mut().push(s));
         r
@@ -205,7 +221,17 @@ pub fn run_case(line: &str) -> String {
         }
         _ => panic!("bad sink {}", t[1]),
     };
-    let tee = Arc::new(Tee(inner));
+    let ctl = Arc::new(Ctl {
+        events: Mutex::new(vec![]),
+        hold: Mutex::new(Hold { role: None, parked: false, release: false }),
+        cv: Condvar::new(),
+        free,
+        seed,
+        n: AtomicU64::new(0),
+        clock: AtomicU64::new(0),
+        writes: AtomicU64::new(0),
+    });
+    let tee = Arc::new(Tee(inner, ctl.clone()));
     struct Fwd(Arc<Tee>);
     impl MetricSink for Fwd {
         fn emit(&self, m: &str) -> io::Result<usize> {
@@ -257,14 +283,6 @@ pub fn run_case(line: &str) -> String {
         }
     };
 
-    let ctl = Arc::new(Ctl {
-        events: Mutex::new(vec![]),
-        hold: Mutex::new(Hold { role: None, parked: false, release: false }),
-        cv: Condvar::new(),
-        free,
-        seed,
-        n: AtomicU64::new(0),
-    });
     let c2 = ctl.clone();
     cadence::verif::install(Arc::new(move |site| c2.hook(site)));
 
